@@ -97,6 +97,13 @@ def view_cfg(self):
         ("_pipes[2..5]", (self._pipes[2], self._pipes[3], self._pipes[4], self._pipes[5])),
         ("_tx_address", bytes(self._tx_address)),
         ("_pipe0_read_addr", self._pipe0_read_addr),
+    ) + hw_view(hw)
+
+
+def hw_view(hw):
+    """the radio itself: whole register file, address registers, FIFOs, CE, ghost flags"""
+    r = hw.reg
+    return (
         ("CONFIG", r[0]), ("EN_AA", r[1]), ("EN_RXADDR", r[2]), ("SETUP_AW", r[3]), ("SETUP_RETR", r[4]),
         ("RF_CH", r[5]), ("RF_SETUP", r[6]), ("STATUS.latches", r[7]), ("OBSERVE_TX", r[8]), ("RPD", r[9]),
         ("RX_ADDR_P0", bytes(hw.addr0)), ("RX_ADDR_P1", bytes(hw.addr1)),
@@ -119,3 +126,9 @@ def post_inv(self):
 def unchanged_on_raise(self, old_self, exc):
     """a rejected call leaves registers and shadows exactly as they were"""
     return implies(exc is not None, view_cfg(self) == view_cfg(old_self))
+
+
+
+def view_hw(self):
+    """for drivers that keep no shadows (rf24_lite)"""
+    return hw_view(self._spi.hw)
